@@ -557,6 +557,7 @@ def seed_lines():
         ("rb_custom/Linefont.ttf", ["w59206:40", "w33827:cd", "w53245:ba", "w30462:00", "w41887:a4"], f"{plain} 21f,61"),      # reverse chain coverage unwrap
         ("in-house/TRAK.ttf", ["w426:01"], "- - - 255 2 - - feff,5b4,200d,3164 41,42,43 ppem=0 ptem=1e9 mode=plan ser=1"),       # serialize pen accumulation (fixed)
         ("in-house/MORXTwentyeight.ttf", ["w2650:fffe"], f"{plain} 41,78,45,79,44,79,79 ser=1"),                           # morx ligature_idx u16 +=
+        ("in-house/55e2910dbc9ef5dd89f4e146e7e0152169545b6a.ttf", [], f"- - - 0 0 {tag_hex('pref')}:1:0:4294967295 - - d17,d4d ser=1"),   # indic final reordering: failed 'pref' candidate at the end of the syllable, info[len] (fixed)
         ("rb_custom/Rasa.subset1.otf", [], "l - - 64 1 - - - abc*65536"),                                                 # quadratic in a run of marks (2 s here, 88 s at 300k)
     ]
     for f, muts, rest in past:
